@@ -44,7 +44,7 @@ func init() {
 		Assumptions: []string{"ref.IndexTuples / ref.Compare implement DESIGN.md 8.5 / 8.1", "documents whose key path fans out over arrays of sub-documents or holds nested arrays are outside the asserted domain (state pairs are still compared when in domain)"},
 		Batches:     func(tier string) int { return 16 },
 		Require: func(tier string) map[string]int64 {
-			return map[string]int64{"calls": 5000, "inv_unique_pairs": 20000, "insert_predictions": 1000, "twin_predictions": 500, "build_predictions": 200,
+			return map[string]int64{"calls": 5000, "inv_unique_pairs": 20000, "insert_predictions": 1000, "twin_predictions": 500, "build_predictions": 200, "bulk_predictions": 300,
 				"uniqueness_errors_expected": 300, "uniqueness_accepts_expected": 1000}
 		},
 		Run: func(c *fw.Ctx) { runIndexHistories(c, "C07") },
@@ -181,12 +181,36 @@ func c15ReadsBetweenWrites(c *fw.Ctx, id string) {
 				check(op.Kind)
 				return res
 			}
+			// an insert is rejected for uniqueness exactly if it shares an m.t
+			// element (or the _id) with a present document (independent oracle)
+			insert := func(d bson.D) {
+				pre := w.peek("d", "c1")
+				c1, ok1 := mon.Conflicts(d, pre, bson.D{{Key: "m.t", Value: int32(1)}}, nil)
+				c2, ok2 := mon.Conflicts(d, pre, bson.D{{Key: "_id", Value: int32(1)}}, nil)
+				res := run(drv.Op{Kind: drv.InsertOne, DB: "d", Coll: "c1", Docs: []bson.D{d}})
+				if !ok1 || !ok2 || violated || id != "C07" {
+					return
+				}
+				c.Count("insert_predictions", 1)
+				if want := c1 || c2; want != res.Unique {
+					key := "unique:rejected-without-conflict"
+					if want {
+						key = "unique:accepted-or-wrong-error"
+					}
+					c.Violate(key, fmt.Sprintf("an insert that shares a unique key with a present document: %v, but the call returned err=%q (reads with projections between writes)", want, res.Err),
+						map[string]interface{}{"history": w.history(), "collection_before": jsonList(pre), "document": gen.JSON(d)})
+					violated = true
+				}
+			}
 			code := int32(0)
 			newDoc := func(i int) bson.D {
 				tags := bson.A{}
 				for k := r.Range(1, 4); k > 0; k-- {
 					code++
 					tags = append(tags, code)
+					if r.Chance(1, 3) {
+						tags = append(tags, code) // the same element twice: one key, two positions
+					}
 				}
 				xs := bson.A{}
 				for k := r.Range(0, 3); k > 0; k-- {
@@ -201,13 +225,13 @@ func c15ReadsBetweenWrites(c *fw.Ctx, id string) {
 			}
 			next := 1
 			for ; next <= 5; next++ {
-				run(drv.Op{Kind: drv.InsertOne, DB: "d", Coll: "c1", Docs: []bson.D{newDoc(next)}})
+				insert(newDoc(next))
 			}
 			steps := c.N(24, 40)
 			for s := 0; s < steps && !violated; s++ {
 				docs := w.peek("d", "c1")
 				if len(docs) == 0 {
-					run(drv.Op{Kind: drv.InsertOne, DB: "d", Coll: "c1", Docs: []bson.D{newDoc(next)}})
+					insert(newDoc(next))
 					next++
 					continue
 				}
@@ -246,8 +270,10 @@ func c15ReadsBetweenWrites(c *fw.Ctx, id string) {
 					if r.Bool() {
 						run(drv.Op{Kind: drv.DeleteOne, DB: "d", Coll: "c1", Filter: byID})
 						d[2].Value.(bson.D)[0].Value = gen.CloneValue(ref.GetPath(tgt, "m.t"))
+					} else if r.Chance(1, 3) {
+						d[2].Value.(bson.D)[0].Value = gen.CloneValue(ref.GetPath(tgt, "m.t")) // collides with the target
 					}
-					run(drv.Op{Kind: drv.InsertOne, DB: "d", Coll: "c1", Docs: []bson.D{d}})
+					insert(d)
 				case 2:
 					code++
 					run(drv.Op{Kind: drv.UpdateOne, DB: "d", Coll: "c1", Filter: byID, Update: bson.D{{Key: "$push", Value: bson.D{{Key: "m.t", Value: code}, {Key: "c.x", Value: int32(3)}}}}})
@@ -608,6 +634,76 @@ func c07Predict(c *fw.Ctx, w *world, op *drv.Op, res drv.Res, pre []bson.D, cfgs
 			*violated = true
 		} else {
 			c.Count("uniqueness_accepts_expected", 1)
+		}
+	case drv.BulkWrite:
+		// ordered bulks (and unordered bulks of inserts): the items are applied one
+		// after another to a twin without the secondary unique indexes; the first
+		// item after which two documents share a key is the one the real call
+		// must have rejected with a uniqueness error (also when the error is
+		// wrapped into the bulk write exception)
+		allInserts := true
+		for _, m := range op.Models {
+			if m.Kind != drv.InsertOne {
+				allInserts = false
+			}
+		}
+		if !op.Ordered && !allInserts {
+			return
+		}
+		tc, te, err := openMemEngine()
+		if err != nil {
+			return
+		}
+		defer te.Close()
+		ctx := context.Background()
+		if len(pre) > 0 {
+			ins := make([]interface{}, len(pre))
+			for i, d := range pre {
+				ins[i] = d
+			}
+			if _, err := tc.Database(op.DB).Collection(op.Coll).InsertMany(ctx, ins); err != nil {
+				return
+			}
+		}
+		anyConf := false
+		for _, m := range op.Models {
+			if m.Kind == drv.InsertOne {
+				cur := mon.Docs(te.Catalog(), lungo.Handle{op.DB, op.Coll})
+				conf := false
+				for _, u := range cfgs {
+					cf, cok := mon.Conflicts(m.Docs[0], cur, u.key, u.partial)
+					if !cok {
+						return
+					}
+					conf = conf || cf
+				}
+				if conf {
+					anyConf = true
+					if op.Ordered {
+						break
+					}
+					continue
+				}
+			}
+			tm := m.Clone()
+			tm.DB, tm.Coll = op.DB, op.Coll
+			if tres := drv.Exec(ctx, tc, &tm); tres.Err != "" {
+				return // another kind of failure comes first: class not predicted
+			}
+			pair, _, ok := pairUnder(mon.Docs(te.Catalog(), lungo.Handle{op.DB, op.Coll}), cfgs)
+			if !ok {
+				return
+			}
+			if pair {
+				anyConf = true
+				break
+			}
+		}
+		c.Count("bulk_predictions", 1)
+		expect("the bulk write", anyConf)
+		if anyConf && res.Unique && !res.UniqueAll && !*violated {
+			c.Violate("unique:bulk-error-not-classified", "a bulk write was rejected for uniqueness (the item's write error is a uniqueness error), but IsUniquenessError does not recognise the error the call returned", witness(map[string]interface{}{"op": op.String()}))
+			*violated = true
 		}
 	case drv.UpdateOne, drv.UpdateMany, drv.UpdateByID, drv.ReplaceOne, drv.FindOneAndUpdate, drv.FindOneAndReplace:
 		// twin without secondary unique indexes
